@@ -202,7 +202,7 @@ inline void buildDevs(const Seed &seed, SeedInfo &si)
                     Dev d{A_SET, 'a'};
                     d.node = e->id; d.attr = an; d.val = mv.first;
                     if (judge && !math) d.why = mv.second;
-                    d.reduced = (k % 5) == 0;
+                    d.reduced = (k % 8) == 0;
                     ++k;
                     push(d);
                 }
@@ -266,7 +266,7 @@ inline void buildDevs(const Seed &seed, SeedInfo &si)
                     if (n == el) continue;
                     Dev d{E_RENAME, 'b'}; d.node = e->id; d.val = n;
                     if (judge && !math && n == "foo") d.why = "unknown-element";
-                    d.reduced = (k++ % 5) == 0;
+                    d.reduced = (k++ % 8) == 0;
                     push(d);
                 }
             }
@@ -306,7 +306,7 @@ inline void buildDevs(const Seed &seed, SeedInfo &si)
         cuts.erase(text.size());
         size_t k = 0;
         for (size_t cpos : cuts) {
-            Dev d{T_TRUNC, 'd'}; d.pos = int(cpos); d.reduced = (k++ % 16) == 0; push(d);
+            Dev d{T_TRUNC, 'd'}; d.pos = int(cpos); d.reduced = (k++ % 24) == 0; push(d);
         }
     }
     // ---------------- document-level byte edits
